@@ -193,6 +193,132 @@ def check_flags():
     return ok, log
 
 
+# ------------------------------------------------------------------------------------------------------------------------------
+# the start-up handshake QueueSnapshotStore.get_initial_snapshot against InitSnap.v (D20): EVERY schedule of reader / consumer moves up
+# to length INITSNAP_LEN is run on the REAL method (its queue and the thread object replaced by scripted stand-ins that let the
+# scheduled reader moves happen exactly between the consumer's three observations: timed get, is_alive(), get_nowait()), and coqc proves
+# that the outcomes are the model's, schedule by schedule.
+INITSNAP_LEN = 9
+
+
+class _OutOfSchedule(BaseException):
+    pass
+
+
+def _initsnap_real(sched):
+    """-> outcome code of the real get_initial_snapshot under `sched` (a string of 'R'/'C'):
+    0 CGet / 1 CAlive / 2 CLast (schedule ran out before that observation), 3 CGot, 4 CFail"""
+    import queue as _queue
+
+    from torchdata.nodes.snapshot_store import QueueSnapshotStore
+    store = QueueSnapshotStore()
+    st = {"i": 0, "reader": 0, "dead": False}
+    items = []
+
+    def reader_move():
+        if st["reader"] == 0:
+            store.append_initial_snapshot({"pos": 0})       # the real append (under the store's lock) into the scripted queue
+        elif st["reader"] == 1:
+            st["dead"] = True
+        st["reader"] = min(2, st["reader"] + 1)
+
+    def consumer_turn(code):
+        # reader moves scheduled before this observation happen now; then the observation takes one consumer move
+        while st["i"] < len(sched) and sched[st["i"]] == "R":
+            reader_move()
+            st["i"] += 1
+        if st["i"] >= len(sched):
+            raise _OutOfSchedule(code)
+        st["i"] += 1
+
+    class Q:
+        queue = items
+
+        def put(self, x):
+            items.append(x)
+
+        def get(self, block=True, timeout=None):
+            consumer_turn(0)
+            if items:
+                st["got"] = True
+                return items.pop(0)
+            raise _queue.Empty()
+
+        def get_nowait(self):
+            consumer_turn(2)
+            if items:
+                st["got"] = True
+                return items.pop(0)
+            raise _queue.Empty()
+
+    class T:
+        def is_alive(self):
+            # the error message of the failure path reads is_alive() once more: no further move is consumed once the loop was left
+            # ... and the test made after a successful get decides nothing (the loop ends either way)
+            if st.get("left") or st.get("got"):
+                return not st["dead"]
+            consumer_turn(1)
+            if st["dead"]:
+                st["left"] = True
+            return not st["dead"]
+
+    store._q = Q()
+    try:
+        store.get_initial_snapshot(thread=T(), timeout=60.0)
+        return 3
+    except _OutOfSchedule as e:
+        return e.args[0]
+    except RuntimeError:
+        return 4
+
+
+INITSNAP_COQ = """From Coq Require Import List Bool Arith.
+From PD Require InitSnap.
+Import ListNotations.
+Definition R := InitSnap.MReader. Definition C := InitSnap.MConsumer.
+Definition code (c : InitSnap.cstate) : nat :=
+  match c with InitSnap.CGet => 0 | InitSnap.CAlive => 1 | InitSnap.CLast => 2 | InitSnap.CGot => 3 | InitSnap.CFail => 4 end.
+Definition scheds : list (list InitSnap.move) := %s.
+Definition real_outcomes : list nat := %s.
+(* the outcomes of the real method, regenerated on this run from /repo's working tree, are the model's on every schedule *)
+Lemma initsnap_tie : map (fun s => code (InitSnap.cs (InitSnap.run true s))) scheds = real_outcomes.
+Proof. vm_compute. reflexivity. Qed.
+Print Assumptions initsnap_tie.
+"""
+
+
+def check_initsnap():
+    """-> (ok, log)"""
+    import itertools
+    scheds = ["".join(t) for n in range(INITSNAP_LEN + 1) for t in itertools.product("RC", repeat=n)]
+    try:
+        outs = [_initsnap_real(s) for s in scheds]
+    except BaseException as e:  # noqa
+        return False, f"get_initial_snapshot could not be driven by the scripted stand-ins: {type(e).__name__}: {e}"
+    os.makedirs(lib.SCRATCH, exist_ok=True)
+    work = os.path.join(lib.SCRATCH, f"initsnap_{os.getpid()}")
+    os.makedirs(work, exist_ok=True)
+    path = os.path.join(work, "InitSnapCheck.v")
+    with open(path, "w") as f:
+        f.write(INITSNAP_COQ % ("[" + "; ".join("[" + "; ".join(s) + "]" for s in scheds) + "]", "[" + "; ".join(map(str, outs)) + "]"))
+    try:
+        p = subprocess.run(["coqc", "-Q", os.path.join(lib.COQ, "theories"), "PD"] + lib.COQ_WARN + [path], cwd=work,
+                           stdout=subprocess.PIPE, stderr=subprocess.STDOUT, text=True, timeout=300)
+        ok = p.returncode == 0 and "Closed under the global context" in p.stdout
+        log = ""
+        if not ok:
+            bad = [s for s, o in zip(scheds, outs) if o == 4]
+            log = ("the real get_initial_snapshot and InitSnap.v disagree on some schedule of <= %d moves" % INITSNAP_LEN
+                   + (f"; the real method FAILS a healthy start-up under the schedule {bad[0]!r} (R = a reader move: append the snapshot, then return; "
+                      f"C = a consumer observation: timed get, is_alive(), get_nowait())" if bad else "") + ":\n" + p.stdout[-1500:])
+    except subprocess.TimeoutExpired:
+        ok, log = False, "InitSnapCheck.v timed out"
+    import shutil
+    shutil.rmtree(work, ignore_errors=True)
+    return ok, log
+
+
 if __name__ == "__main__":
     print(translate())
     print(check_flags())
+    print(check_initsnap())
